@@ -33,7 +33,7 @@ TRANSLATORS = [("invhash", translate)]
 
 def correspond(run):
     """translator validation: generated Coq functions vs the compiled Rust functions"""
-    n = 3000 if run.tier == "quick" else 60000
+    n = 3000 if run.depth == "quick" else 60000
     rc, js, out, err = vlib.harness(["invhash-vectors", "--seed", run.seed, "--n", n])
     if rc != 0 or js is None:
         run.oblige("correspondence:invhash-vectors", "correspondence", False, (out + err)[-800:])
@@ -82,7 +82,7 @@ def _search(run, n, debug=False):
 
 def direct(run):
     """the property itself on the implementation (cheap): structured + random values"""
-    js = _search(run, 300000 if run.tier == "quick" else 20000000)
+    js = _search(run, 300000 if run.depth == "quick" else 20000000)
     if js is None:
         return
     run.coverage["impl_values_checked"] = js["tried"]
